@@ -15,15 +15,16 @@ import (
 	"runtime"
 	"strings"
 	"sync"
+	"unsafe"
 )
 
 // Op describes the visible operation a parked thread is about to perform.
 type Op struct {
-	Kind  string      // for traces: "atomic.Load", "mutex.Lock", ...
-	Obj   uintptr     // identity of the object operated on (0 = none)
-	Write bool        // conflicts with every other access to Obj (reads only with writes)
-	Ready func() bool // nil = always enabled
-	ch    *chanOp     // channel / select operations
+	Kind  string         // for traces: "atomic.Load", "mutex.Lock", ...
+	Obj   unsafe.Pointer // identity of the object operated on (nil = none); kept alive for the whole execution so that its address cannot be reused
+	Write bool           // conflicts with every other access to Obj (reads only with writes)
+	Ready func() bool    // nil = always enabled
+	ch    *chanOp        // channel / select operations
 }
 
 type Thread struct {
@@ -81,13 +82,13 @@ type Sched struct {
 	wg              sync.WaitGroup
 	tracing         bool
 	Trace           []string
-	objs            []uintptr // canonical object numbering (first use)
+	objs            []unsafe.Pointer // canonical object numbering (first use); also keeps the objects alive, so that no address is reused within an execution
 	objHash         []objH
 	chans           []*chanModel
 	visit           func(key uint64, preemptions int) bool // state-cache hook: false = prune here
 	Pruned          bool
 	NoBlockViolated string
-	delay    bool // delay bounding: every deviation from the canonical next thread costs, forced switches included
+	delay           bool   // delay bounding: every deviation from the canonical next thread costs, forced switches included
 	rtAcc           uint64 // commutative hash of the set of API calls that have returned (real-time order)
 	clock           int    // logical clock; every stamp is unique
 	preempt         int
@@ -128,8 +129,8 @@ func hashStr(s string) uint64 {
 // objID returns the canonical number of an object (first-use order).
 //
 //go:norace
-func (s *Sched) objID(p uintptr) int {
-	if p == 0 {
+func (s *Sched) objID(p unsafe.Pointer) int {
+	if p == nil {
 		return 0
 	}
 	for i, q := range s.objs {
@@ -567,7 +568,7 @@ func Note(what string) {
 // critical section).
 //
 //go:norace
-func Yield(kind string, obj uintptr, write bool) {
+func Yield(kind string, obj unsafe.Pointer, write bool) {
 	if cur == nil {
 		return
 	}
